@@ -5,10 +5,16 @@ from pyvc.source import Repo
 from pyvc.contracts import REGISTRY
 from pyvc.verify import FunctionVerifier
 mod, pat = sys.argv[1], (sys.argv[2] if len(sys.argv) > 2 else '')
-importlib.import_module('contracts.' + mod)
+import glob, os
+for _p in sorted(glob.glob('/verif/contracts/c_*.py')):
+    importlib.import_module('contracts.' + os.path.basename(_p)[:-3])
+wanted = set(q for q, c in REGISTRY.items() if True)
+import contracts
+modobj = importlib.import_module('contracts.' + mod)
 repo = Repo('/repo/src', extra_roots=['/verif/contracts'])
 for q, c in REGISTRY.items():
     if pat and pat not in q: continue
+    if getattr(c, '_module', None) != mod: continue
     t = time.time()
     fv = FunctionVerifier(repo, c, REGISTRY, setup=c.engine_setup, spec_modules=["spec_geonet"] if False else [])
     try:
